@@ -73,7 +73,7 @@ CHECKS = {
          "DESIGN.md §6 C08"),
  "C19": ("model_checking",
          "explicit-state IDDFS over real handlers + real BridgeHook, full metadata probe matrix per state",
-         "Exhaustive enumeration of create / update-metadata / update-challenger / channel-send histories over two bridges, two challengers, four channels on two ports (one missing; icqhost/channel-1 shares its channel id with transfer/channel-1) with the real hook.BridgeHook wired over store-backed channel/perm keepers (they branch and roll back with the transaction); in every explored state the full 22-entry metadata menu (documented lists, unknown fields, duplicate and differently-cased keys, null, wrong types, non-JSON, empty, oversized) is probed through CreateBridge and UpdateMetadata. An independent metadata reader classifies P/N/A; oracle: any admin change goes to the bridge's challenger, only on listed channels, only on channels that existed with next-send-sequence 1 and no admin (or were already his); P and success => all listed channels administered by the challenger; failure => admin table unchanged; N => never touched; challenger update hands over exactly the listed channels — also when the metadata stored at that moment is any of the 22 shapes (two-step probes UpdateMetadata(m) ; UpdateChallenger in every state).",
+         "Exhaustive enumeration of create / update-metadata / update-challenger / channel-send histories over two bridges, two challengers, four channels on two ports (one missing; icqhost/channel-1 shares its channel id with transfer/channel-1) with the real hook.BridgeHook wired over store-backed channel/perm keepers (they branch and roll back with the transaction); in every explored state the full 25-entry metadata menu (documented lists, unknown fields, duplicate and differently-cased keys, null, wrong types, non-JSON, empty, oversized) is probed through CreateBridge and UpdateMetadata. An independent metadata reader classifies P/N/A; oracle: any admin change goes to the bridge's challenger, only on listed channels, only on channels that existed with next-send-sequence 1 and no admin (or were already his); P and success => all listed channels administered by the challenger; failure => admin table unchanged; N => never touched; challenger update hands over exactly the listed channels — also when the metadata stored at that moment is any of the 25 shapes (two-step probes UpdateMetadata(m) ; UpdateChallenger in every state).",
          "Trusted: as C11; channel and ibc-perm keepers are a harness KV store (IsTaken = an admin is set). Bounded: depth 5 (quick) / 6 (thorough).",
          "DESIGN.md §6 C19"),
  "C20": ("model_checking",
